@@ -13,6 +13,10 @@ import (
 	tq "github.com/facebookincubator/tacquito"
 )
 
+// maxUsernameLen is the longest username the user field of an authenticate start,
+// authorization or accounting packet can carry (one octet length field)
+const maxUsernameLen = 255
+
 // NewAuthenticateASCII ...
 func NewAuthenticateASCII(l loggerProvider, c configProvider, username string) *AuthenticateASCII {
 	return &AuthenticateASCII{loggerProvider: l, configProvider: c, username: username, recorderWriter: newPacketLogger(l)}
@@ -83,6 +87,21 @@ func (a *AuthenticateASCII) getUsername(response tq.Response, request tq.Request
 				tq.NewAuthenReply(
 					tq.SetAuthenReplyStatus(tq.AuthenStatusError),
 					tq.SetAuthenReplyServerMsg("missing UserMessage, containing the username"),
+				),
+				a.recorderWriter,
+			)
+			return
+		}
+		// a username can never be longer than what an authenticate start packet can carry.  echoing a
+		// longer one back in a server message would make the reply unmarshalable and leave the client
+		// without any answer
+		if len(body.UserMessage) > maxUsernameLen {
+			authenASCIIGetUsernameAuthenError.Inc()
+			response.ReplyWithContext(
+				a.Context(),
+				tq.NewAuthenReply(
+					tq.SetAuthenReplyStatus(tq.AuthenStatusError),
+					tq.SetAuthenReplyServerMsg("username is too long"),
 				),
 				a.recorderWriter,
 			)
